@@ -88,12 +88,13 @@ SIM = {"quick": [("MC_sim.cfg", 400, 120)], "thorough": [("MC_sim.cfg", 8000, 16
 TWINS = {"quick": 150, "thorough": 3000}
 
 SPECIFIC = {
-    "C08": ["vectors"],
+    "C08": ["vectors", "readersim"],
     "C11": ["vectors"],
-    "C14": ["vectors"],
+    "C12": ["readersim"],
+    "C14": ["vectors", "readersim"],
     "C10": ["timesim"],
     "C13": ["twins-cancel"],
-    "C15": ["twins-fragment", "twins-stall"],
+    "C15": ["twins-fragment", "twins-stall", "readersim"],
     # property -> extra groups (generated by tools/gen_*.py, registered in GENERATORS below)
 }
 
@@ -241,6 +242,15 @@ def gen_timesim(tier, seed, outdir, mqv, root):
               open(os.path.join(outdir, "meta.json"), "w"))
 
 
+def gen_readersim(tier, seed, outdir, mqv, root):
+    import replay_reader
+    trace, bad, n, steps = replay_reader.run(seed, 600 if tier == "quick" else 20000, outdir, mqv)
+    drift = [{"cfg": "Reader", "behaviour": i, "mismatch": mm[:2]} for i, mm in bad[:20]]
+    json.dump({"tool_errors": [], "drift": drift,
+               "samples": [{"group": "readersim", "behaviours": n, "read_calls_replayed": steps, "nonconformant": len(bad)}]},
+              open(os.path.join(outdir, "meta.json"), "w"))
+
+
 def gen_twins(kind):
     def gen(tier, seed, outdir, mqv, root):
         n = TWINS[tier]
@@ -250,7 +260,7 @@ def gen_twins(kind):
     return gen
 
 
-GENERATORS = {"timesim": gen_timesim, "vectors": gen_vectors, "twins-stall": gen_twins("stall"), "twins-cancel": gen_twins("cancel"), "twins-fragment": gen_twins("fragment"), "common": gen_common, "witness": gen_witness, "cover": gen_cover, "sim": gen_sim}
+GENERATORS = {"readersim": gen_readersim, "timesim": gen_timesim, "vectors": gen_vectors, "twins-stall": gen_twins("stall"), "twins-cancel": gen_twins("cancel"), "twins-fragment": gen_twins("fragment"), "common": gen_common, "witness": gen_witness, "cover": gen_cover, "sim": gen_sim}
 
 
 def generate(group, tier, seed, outdir, mqv, root):
